@@ -20,3 +20,14 @@ Theorem C16_from_tuple_positionwise : forall names ro nid ts its stmts,
   forallb (valid_tuple names) ts = true /\ its = map (direct nid) ts /\
   stmts = if ro then [] else map_stmts nid (strs ts).
 Proof. exact FromTuple_spec. Qed.
+(* expand trees (Mapper.ToTree): the names whose ids the engine put into a tree come back at the same node, in the same
+   field, for every tree shape; type and number of children of every node are untouched whatever the table holds;
+   the only refusal is an unknown namespace *)
+Theorem C16_tree_positionwise : forall names nid d t,
+  maps_wf (maps d) -> (forall u, In u (tree_uids (tree_ids nid t)) -> In u (map fst (maps d))) ->
+  tree_ns_ok names t = true -> ToTree names d (tree_ids nid t) = ROk t.
+Proof. exact ToTree_roundtrip. Qed.
+Theorem C16_tree_shape : forall names d t a, ToTree names d t = ROk a -> ashape a = ishape t.
+Proof. exact ToTree_shape. Qed.
+Theorem C16_tree_rejects : forall names d t e, ToTree names d t = RErr e -> e = E_NotFound.
+Proof. exact ToTree_rejects. Qed.
